@@ -90,6 +90,40 @@ def build_harness(tags="sqlite,verif", race=False, extra_overlay=None, name="har
     return out
 
 
+def run_surviving(binary, family, inp, timeout=3600, max_crashes=12, **kw):
+    """runs a family whose harness writes {"start": kind, "i": n} before every item and honours inp["skip"]; when a shard dies, the items it
+    died on are recorded and the run resumes without them. Returns (records, crashers) with crashers = [{"kind", "i", "log"}]"""
+    recs, crashers = [], []
+    skip = {}
+    key_of = {"typeprog": "typeprog", "prog": "prog", "lex": "lex", "text": "text", "raw": "raw"}
+    while True:
+        CRASHED.clear()
+        got = run_harness(binary, family, dict(inp, skip={k: sorted(v) for k, v in skip.items()}), timeout=timeout, tolerate_crash=True, **kw)
+        started, finished = set(), set()
+        for x in got:
+            if "start" in x:
+                started.add((x["start"], x["i"]))
+                continue
+            recs.append(x)
+            for kind, fld in key_of.items():
+                if fld in x:
+                    finished.add((kind, x[fld]))
+        if not CRASHED:
+            return recs, crashers
+        inflight = sorted(started - finished)
+        logtail = "\n".join(c[2] for c in CRASHED)
+        if not inflight or len(crashers) + len(inflight) > max_crashes:
+            raise Inconclusive("harness family %s died (%d items in flight, %d earlier crashes):\n%s" % (family, len(inflight), len(crashers), logtail[-2500:]))
+        m = re.search(r"((?:panic|fatal error|runtime: goroutine stack exceeds)[^\n]*(?:\n[^\n]*){0,12})", logtail)
+        if not m:
+            raise Inconclusive("harness family %s failed without a Go runtime crash report:\n%s" % (family, logtail[-2500:]))
+        for kind, i in inflight:
+            crashers.append({"kind": kind, "i": i, "log": m.group(1)[:2500]})
+        for kind, i in list(finished) + inflight:
+            skip.setdefault(kind, set()).add(i)
+        CRASHED.clear()
+
+
 def run_harness(binary, family, inp, shards=None, seed_=None, timeout=3600, extra=None, env_extra=None, tolerate_crash=False):
     """runs the harness family over `shards` processes; returns the list of ndjson records"""
     sc = scratch()
